@@ -6,7 +6,7 @@ Prints one line per check: id exit-code first-violation; exit status 0 iff some 
 """
 import json, os, subprocess, sys, time
 
-REPO = "/repo"
+REPO = os.environ.get("VERIF_REPO", "/repo")
 VERIF = os.path.dirname(os.path.dirname(os.path.abspath(__file__)))
 
 
